@@ -9,6 +9,7 @@ CONSTANTS
   FixF4 = TRUE
   FixF5 = TRUE
   FixF6 = TRUE
+  FixF6b = TRUE
   FixF7 = TRUE
   FixN1 = TRUE
   FixN3 = TRUE
